@@ -32,3 +32,28 @@ func VerifCacheKeys() []string {
 
 func VerifSetTimeout(d time.Duration) { dialer.Timeout = d }
 func VerifTimeout() time.Duration     { return dialer.Timeout }
+
+// VerifCacheDump describes every cache entry (in LRU order, oldest first) for the
+// explicit-state searches: key, whether a document is stored, its source, its error.
+func VerifCacheDump() []string {
+	if cache == nil {
+		return nil
+	}
+	var out []string
+	for _, k := range cache.Keys() {
+		b, _ := cache.Peek(k)
+		s, e := "-", "-"
+		if b.source != nil {
+			s = b.source.String()
+		}
+		if b.err != nil {
+			e = "err"
+		}
+		d := "nodoc"
+		if b.item != nil {
+			d = "doc"
+		}
+		out = append(out, k+"|"+d+"|"+s+"|"+e)
+	}
+	return out
+}
